@@ -30,7 +30,7 @@
        correspondence run and the two-run comparison on the implementation, not by a theorem.
      - totality (C17_total, Proofs/SerBRTotal.v): on every tree whose atoms are shorter than
        2^32 - 5 bytes (the u32 range of serialized_length_atom; [atoms_u32]) and which has at most
-       (2^32 - 2) / 6 = 715 827 882 nodes (the allocator admits 125 000 000), the serializer returns
+       (2^32 - 2) / 6 = 715 827 882 nodes (the allocator holds at most 125 000 000), the serializer returns
        bytes: the assert on the op stack never fires (the loop is followed by structural recursion
        on the tree), no reference count underflows (the counts dominate the multiset of hashes the
        read stack will decrement: [CInv]) or overflows u32 (their sum grows by at most 6 per node),
